@@ -75,10 +75,10 @@ struct Key(u64);
 /// the last slot, across repeated growth.
 fn table_model(ctx: &mut Ctx, rng: &mut Rng) {
     let cap0 = *rng.pick(&[2usize, 3, 4, 5, 8, 16]);
-    rsdd::verif::set_unique_table_capacity(Some(cap0));
+    crate::caps::set_unique(Some(cap0));
     let _ = rsdd::verif::take_counters();
     let tbl: *mut BackedRobinhoodTable<'static, Key> = Box::into_raw(Box::new(BackedRobinhoodTable::new()));
-    rsdd::verif::set_unique_table_capacity(None);
+    crate::caps::set_unique(None);
     let nkeys = rng.range(4, 120);
     let style = rng.below(4);
     // key -> hash (a function of the key, chosen adversarially)
